@@ -14,8 +14,7 @@
                             byte < 2), `bytes::merge` (last wins), `uint64::merge`, `message::merge` /
                             `merge_loop` (sub-message of a repeated oneof variant merges into the existing
                             value, a different variant replaces it), `skip_field` for unknown tags.
-                            Unknown fields with group wire types (3/4) are rejected by the model (prost skips
-                            well-formed groups; never produced by the encoder, excluded from the generator).
+                            Unknown group fields (wire types 3/4) are skipped like prost does (`skipGroupF`).
   * `toCommand`           — d-engine-core/src/command.rs `TryFrom<WriteCommand> for Command`
                             (`ttl_secs == 0 ↦ None`, no operation ↦ error).
   * `decodeEntryCommand`  — d-engine-core/src/command.rs `decode_entries`, `Payload::Command` branch.
@@ -160,14 +159,37 @@ def decLenDelim (bs : List UInt8) : Option (Bytes × List UInt8) :=
   | none => none
   | some (len, rest) => if len > rest.length then none else some (rest.take len, rest.drop len)
 
-/-- `skip_field` (groups not modelled: rejected). -/
-def skipField (wt : Nat) (bs : List UInt8) : Option (List UInt8) :=
-  match wt with
-  | 0 => (decVarint bs).map (·.2)
-  | 1 => if 8 > bs.length then none else some (bs.drop 8)
-  | 2 => (decLenDelim bs).map (·.2)
-  | 5 => if 4 > bs.length then none else some (bs.drop 4)
-  | _ => none
+mutual
+/-- `skip_field` with fuel (every call consumes ≥ 1 byte) and the recursion budget `depth`
+    (`ctx.limit_reached()`; groups `enter_recursion`). -/
+def skipFieldF : Nat → Nat → Nat → Nat → List UInt8 → Option (List UInt8)
+  | 0, _, _, _, _ => none
+  | fuel + 1, depth, wt, tag, bs =>
+    if depth = 0 then none else
+    match wt with
+    | 0 => (decVarint bs).map (·.2)
+    | 1 => if 8 > bs.length then none else some (bs.drop 8)
+    | 2 => (decLenDelim bs).map (·.2)
+    | 3 => skipGroupF fuel depth tag bs
+    | 5 => if 4 > bs.length then none else some (bs.drop 4)
+    | _ => none       -- EndGroup: "unexpected end group tag"
+/-- the `StartGroup` loop of `skip_field`: skip inner fields until the matching `EndGroup` key. -/
+def skipGroupF : Nat → Nat → Nat → List UInt8 → Option (List UInt8)
+  | 0, _, _, _ => none
+  | fuel + 1, depth, tag, bs =>
+    match decKey bs with
+    | none => none
+    | some (itag, iwt, rest) =>
+      if iwt = 4 then (if itag ≠ tag then none else some rest)
+      else match skipFieldF fuel (depth - 1) iwt itag rest with
+        | none => none
+        | some r => skipGroupF fuel depth tag r
+end
+
+/-- `skip_field` for an unknown tag (recursion budget 100; the real budget is 100 at the top level and 99
+    inside the oneof sub-message — indistinguishable below 99 nested groups). -/
+def skipField (wt tag : Nat) (bs : List UInt8) : Option (List UInt8) :=
+  skipFieldF (2 * bs.length + 2) 100 wt tag bs
 
 /-- `bytes::merge`: wire type must be LengthDelimited. -/
 def mergeBytes (wt : Nat) (bs : List UInt8) : Option (Bytes × List UInt8) :=
@@ -182,21 +204,21 @@ def mergeInsertField (m : PInsert) (tag wt : Nat) (bs : List UInt8) : Option (PI
   | 1 => (mergeBytes wt bs).map fun r => ({ m with key := r.1 }, r.2)
   | 2 => (mergeBytes wt bs).map fun r => ({ m with value := r.1 }, r.2)
   | 3 => (mergeU64 wt bs).map fun r => ({ m with ttlSecs := r.1 }, r.2)
-  | _ => (skipField wt bs).map fun r => (m, r)
+  | _ => (skipField wt tag bs).map fun r => (m, r)
 
 def mergeDeleteField (m : PDelete) (tag wt : Nat) (bs : List UInt8) : Option (PDelete × List UInt8) :=
   match tag with
   | 1 => (mergeBytes wt bs).map fun r => ({ m with key := r.1 }, r.2)
-  | _ => (skipField wt bs).map fun r => (m, r)
+  | _ => (skipField wt tag bs).map fun r => (m, r)
 
 def mergeCasField (m : PCas) (tag wt : Nat) (bs : List UInt8) : Option (PCas × List UInt8) :=
   match tag with
   | 1 => (mergeBytes wt bs).map fun r => ({ m with key := r.1 }, r.2)
   | 2 => (mergeBytes wt bs).map fun r => ({ m with expected := some r.1 }, r.2)
   | 3 => (mergeBytes wt bs).map fun r => ({ m with newValue := r.1 }, r.2)
-  | _ => (skipField wt bs).map fun r => (m, r)
+  | _ => (skipField wt tag bs).map fun r => (m, r)
 
-/-- `Message::merge` loop: `while buf.has_remaining() { decode_key; merge_field }` (fuel = #bytes + 1). -/
+/-- `Message::merge` loop: `while buf.has_remaining() { decode_key; merge_field }` (fuel: every iteration consumes ≥ 1 byte, so any fuel ≥ #bytes behaves the same; `+ 4` only keeps the proofs short). -/
 def mergeLoop {α : Type} (mergeField : α → Nat → Nat → List UInt8 → Option (α × List UInt8)) :
     Nat → List UInt8 → α → Option α
   | _, [], m => some m
@@ -211,7 +233,7 @@ def mergeLoop {α : Type} (mergeField : α → Nat → Nat → List UInt8 → Op
 
 def decMessage {α : Type} (mergeField : α → Nat → Nat → List UInt8 → Option (α × List UInt8))
     (bs : List UInt8) (init : α) : Option α :=
-  mergeLoop mergeField (bs.length + 1) bs init
+  mergeLoop mergeField (bs.length + 4) bs init
 
 /-- `Operation::merge` for one oneof occurrence: the sub-message merges into the current value when the
     variant is the same, otherwise into a default value that replaces the current operation. -/
@@ -239,7 +261,7 @@ def mergeWriteCommandField (wc : WriteCommand) (tag wt : Nat) (bs : List UInt8) 
     | some (sub, rest) =>
       let cur : PCas := match wc.operation with | some (.cas c) => c | _ => {}
       (decMessage mergeCasField sub cur).map fun c => (⟨some (.cas c)⟩, rest)
-  | _ => (skipField wt bs).map fun r => (wc, r)
+  | _ => (skipField wt tag bs).map fun r => (wc, r)
 
 /-- `WriteCommand::decode` -/
 def decWriteCommand (bs : List UInt8) : Option WriteCommand := decMessage mergeWriteCommandField bs {}
